@@ -1315,6 +1315,31 @@ func isSortContractFunc(p *Prog, fn *Func) bool {
 			full := calleeFull(fn.Parent.Info(), call)
 			return full == "sort.Slice" || full == "sort.SliceStable"
 		}
+		// bound to a local first: less := func(i, j int) bool {…}; sort.Slice(xs, less)
+		if as, ok := p.Parent(fn.Lit).(*ast.AssignStmt); ok && fn.Parent != nil && len(as.Lhs) == 1 && len(as.Rhs) == 1 {
+			pinfo := fn.Parent.Info()
+			id, ok := as.Lhs[0].(*ast.Ident)
+			if !ok {
+				return false
+			}
+			o := pinfo.ObjectOf(id)
+			if o == nil || len(fn.Parent.Assignments(o)) != 1 {
+				return false
+			}
+			uses, sortUses := 0, 0
+			ast.Inspect(fn.Parent.Body, func(n ast.Node) bool {
+				if u, ok := n.(*ast.Ident); ok && pinfo.Uses[u] == o {
+					uses++
+					if call, ok := p.Parent(u).(*ast.CallExpr); ok && len(call.Args) == 2 && call.Args[1] == ast.Expr(u) {
+						if full := calleeFull(pinfo, call); full == "sort.Slice" || full == "sort.SliceStable" {
+							sortUses++
+						}
+					}
+				}
+				return true
+			})
+			return uses > 0 && uses == sortUses
+		}
 	}
 	return false
 }
